@@ -147,6 +147,13 @@ def run(module, cfg_path, workers=4, timeout=600, simulate=None, depth=None, tag
     if ms:
         g, d, q = ms[-1]
         res.update(states=int(g), distinct=int(d), queue=int(q))
+    elif simulate:
+        # simulation mode reports "N states checked, M traces generated"
+        sm = re.findall(r"(\d+) states checked(?:, (\d+) traces generated)?", out)
+        if sm:
+            n = int(sm[-1][0])
+            res.update(states=n, distinct=n)
+            res["behaviours"] = int(sm[-1][1] or 0)
     m = _RE_DEPTH.search(out)
     if m:
         res["depth"] = int(m.group(1))
